@@ -1,6 +1,9 @@
 (** C08 — Checkpoints restore exactly, resume continues the run, saves are crash-safe. Statements only. *)
 From Coq Require Import List Bool Arith Lia.
 From Tempest Require Import Model.Alias Proofs.Alias Model.Crash Proofs.Crash Link.Alias Link.Checkpoint.
+From Tempest Require Model.RunBook Proofs.RunBook.
+Module RB := Tempest.Model.RunBook.
+Module RBP := Tempest.Proofs.RunBook.
 Import ListNotations.
 
 (** export (save) followed by import (load) into the state manager restores exactly the same current
@@ -56,6 +59,38 @@ Proof.
     + destruct k; [lia|]. cbn. lia.
 Qed.
 Print Assumptions C08_cadence.
+
+(** ---- resume continues the run. The run-level bookkeeping machine (Model/RunBook.v: iteration counter, call counter, one history
+    record per iteration, numbered checkpoints; driven by whatever the schedule, the kernel and the caller decide) ---- *)
+
+(** run os1, checkpoint, load into a fresh sampler, run os2 -- with ANY save cadence, any batch size, restarted where the code restarts
+    (t0 = restored iteration counter): iteration numbers, call counts and the whole history are those of the uninterrupted run *)
+Theorem C08_resume_continues : forall e1 e2 os1 os2,
+  let s1 := RB.run e1 0 os1 RB.fresh in
+  RB.core (RB.run e2 (RB.iter s1) os2 (RB.resume_from s1)) = RB.core (RB.run e1 0 (os1 ++ os2) RB.fresh).
+Proof. exact RBP.resume_continues. Qed.
+Print Assumptions C08_resume_continues.
+
+(** the restored history prefix is left as it is; exactly one record per iteration is appended; numbers are 1, 2, 3, ... without gap *)
+Theorem C08_history_prefix_and_numbering : forall e t0 os s,
+  (exists tail, RB.hist (RB.run e t0 os s) = RB.hist s ++ tail /\ length tail = length os)
+  /\ RB.iter (RB.run e t0 os s) = RB.iter s + length os
+  /\ (RBP.well_numbered s -> RBP.well_numbered (RB.run e t0 os s)).
+Proof. intros e t0 os s. split; [apply RBP.run_hist_prefix|split; [apply RBP.run_iter|apply RBP.run_numbered]]. Qed.
+Print Assumptions C08_history_prefix_and_numbering.
+
+(** the call counter continues: initial value plus the likelihood rows of every iteration, each record holding the running total *)
+Theorem C08_call_counter_continues : forall e t0 os s,
+  RB.calls (RB.run e t0 os s) = RB.calls s + fold_right plus 0 (map RB.rows os)
+  /\ (RBP.counter_is_last s -> RBP.calls_consistent s -> RBP.calls_consistent (RB.run e t0 os s)).
+Proof. intros e t0 os s. split; [apply RBP.run_calls|apply RBP.run_calls_consistent]. Qed.
+Print Assumptions C08_call_counter_continues.
+
+(** checkpoints written by a (re)started run: exactly the iteration counts t0 + k * every that it passes *)
+Theorem C08_checkpoints_written : forall e t0 os s,
+  RB.saved (RB.run (Some e) t0 os s) = RB.saved s ++ filter (fun i => Gen.Checkpoint.saves_at i t0 e) (seq (RB.iter s) (length os)).
+Proof. intros e t0 os s. rewrite RBP.run_saved. reflexivity. Qed.
+Print Assumptions C08_checkpoints_written.
 
 (** the pinned tree's direct write is refuted by a concrete crash *)
 Example C08_direct_write_refuted :
